@@ -1135,7 +1135,7 @@ def c06(ctx, res):
                 coX = [c2 for c2 in cg.calls.get(X.path, []) if c2.target is not None and eff.direct[c2.target.path]["copy_out"]]
                 clearsX = [cc.bb for (cls, cc) in dX["table"] if cls == "clear"]
                 return bool(dX["swap_table"] and clearsX and coX and any(cls in ("insert", "insert_grow") for (cls, _c) in dX["table"])
-                            and all(gX.all_paths_pass(c2.bb, gX.return_blocks(), clearsX) for c2 in coX))
+                            and all(gX.all_feasible_paths_pass(c2.bb, gX.return_blocks(), clearsX) for c2 in coX))
 
             if body.impl_self and body.impl_self.get("name") in co:
                 okc = True       # a method of a copy-out iterator type (its step, or a helper of it): the holder's Drop discipline is checked below
